@@ -372,11 +372,10 @@ def verify_contract(repo_root: str, target: str, z3_ms=None, budget_s=600.0) -> 
         # a `return` that no explored path reaches would make the postconditions vacuous for that exit: the contract must
         # say that its parameter domain excludes it (`partial_domain="why"`), otherwise the function is undecided
         dead_returns = [n.lineno for n in body if isinstance(n, ast.Return) and id(n) not in executed]
+        dead_reason = None
         if dead_returns and not getattr(c, "partial_domain", None):
-            res.status = "undecided"
-            res.reason = (f"return statement(s) at line(s) {dead_returns[:4]} of {c.target} are never reached on any explored path: the postconditions would be "
-                          "vacuous for that exit (declare partial_domain=... in the contract if the parameter domain excludes it on purpose)")
-            return res
+            dead_reason = (f"return statement(s) at line(s) {dead_returns[:4]} of {c.target} are never reached on any explored path: the postconditions would be "
+                           "vacuous for that exit (declare partial_domain=... in the contract if the parameter domain excludes it on purpose)")
         # "nothing else escapes": one obligation per function, failed by any escape.* obligation
         if not any("/escape." in ob.oid for ob in all_obs):
             all_obs.append(Obligation(f"{c.target}/noescape", [], z3.BoolVal(True), "", f"no exception class outside {sorted(c.raises)} reaches the caller on any path", ""))
@@ -399,6 +398,9 @@ def verify_contract(repo_root: str, target: str, z3_ms=None, budget_s=600.0) -> 
             if len(res.samples) < 3 and st == "unsat" and backend != "const":
                 res.samples.append({"obligation": ob.oid, "case": ob.case, "path": ob.path or "-",
                                     "assumptions": [str(p)[:160] for p in ob.pc[-4:]], "goal": str(ob.goal)[:300], "backend": backend})
+        if dead_reason and not res.violations:
+            # no obligation fails, but a normal exit was never explored: not a proof
+            res.undecided.append({"oid": f"{c.target}/coverage.returns", "case": "", "path": "", "reason": dead_reason, "note": "every return statement is reached on some explored path"})
     except Exception as e:  # noqa: BLE001
         res.status = "error"
         res.reason = f"{type(e).__name__}: {e}\n{traceback.format_exc()[-1500:]}"
